@@ -201,6 +201,14 @@ Check C15_filter_lengths_add_up :
   length (filter f l) + length (filter (fun x => negb (f x)) l) = length l.
 Print Assumptions C15_filter_lengths_add_up.
 
+(* removing duplicates and sorting can be done in either order *)
+Theorem C15_unique_and_sort_commute :
+  forall (l : list str), unique (sort_asc l) = sort_asc (unique l).
+Proof. exact unique_sort_commute. Qed.
+Check C15_unique_and_sort_commute :
+  forall (l : list str), unique (sort_asc l) = sort_asc (unique l).
+Print Assumptions C15_unique_and_sort_commute.
+
 Theorem C15_sort_invents_nothing :
   forall (l : list str), incl (sort_asc l) l.
 Proof. exact sort_incl. Qed.
